@@ -710,9 +710,9 @@ struct StartWorld : World, vt::Hooks {
             fflush(stdout);
             vt::fatal("wait_until(time_point::max()) in single-thread start(): hang");
         }
-        const Step *st = begin_event("worker waits until " + std::to_string(sec));
+        const Step *st = begin_event("worker waits until " + tm.model(ns).dump());
         if (!st) return;
-        if (st->name != "WorkerWait") wrong(st, "worker waits until " + std::to_string(sec));
+        if (st->name != "WorkerWait") wrong(st, "worker waits until " + tm.model(ns).dump());
     }
 
     // ---- client coroutines
@@ -808,8 +808,8 @@ struct StartWorld : World, vt::Hooks {
 
 int main() {
     signal(SIGALRM, on_alarm);
-    return replay_main(std::cin, [](const Scenario &sc, Reporter &rep) {
-        vt::now = 0;
+    int rc = replay_main(std::cin, [](const Scenario &sc, Reporter &rep) {
+        World::nsleeps = 0;
         vt::post_wait = false;
         vt::where = sc.id.c_str();
         vt::guard_locks = true;
@@ -843,4 +843,9 @@ int main() {
         alarm(0);
         vt::guard_locks = false;
     });
+    // how often each API form requested a sleep (informational, after the SUMMARY line)
+    printf("FORMS");
+    for (auto &kv : World::form_uses) printf(" %s=%ld", kv.first.c_str(), kv.second);
+    printf("\n");
+    return rc;
 }
